@@ -249,4 +249,453 @@ theorem tls_run_eq_groupByFlow (M : TlsMachine κ σ ο) (o : Opts) (pkts : List
         rw [h1]
         exact ih _ (by simp at hn; omega) ps rfl
 end Tls2
+
+section Tls3
+variable {κ σ ο : Type}
+
+theorem filter_sameFlow_congr {p q : Pkt} (h : sameFlow p q = true) (l : List Pkt) :
+    l.filter (sameFlow p) = l.filter (sameFlow q) := by
+  apply List.filter_congr
+  intro x _
+  rw [Bool.eq_iff_iff]
+  constructor
+  · intro hx; exact sameFlow_trans (by rw [sameFlow_symm]; exact h) hx
+  · intro hx; exact sameFlow_trans h hx
+
+theorem others_filter_sameFlow {p q : Pkt} (h : sameFlow p q = false) (l : List Pkt) :
+    (others p l).filter (sameFlow q) = l.filter (sameFlow q) := by
+  simp only [others, List.filter_filter]
+  apply List.filter_congr
+  intro x _
+  by_cases hx : sameFlow q x = true
+  · have : sameFlow p x = false := by
+      cases hpx : sameFlow p x with
+      | false => rfl
+      | true =>
+        have := sameFlow_trans hpx (by rw [sameFlow_symm]; exact hx)
+        rw [h] at this; cases this
+    simp [hx, this]
+  · simp [hx]
+
+theorem alone_none_of_not_candidate (M : TlsMachine κ σ ο) (o : Opts) {p q : Pkt} (hc : candidate o p = false)
+    (h : sameFlow q p = true) (l : List Pkt) : alone M o (l.filter (sameFlow q)) = none := by
+  cases hl : l.filter (sameFlow q) with
+  | nil => rfl
+  | cons x xs =>
+    have hx : sameFlow q x = true := by
+      have : x ∈ l.filter (sameFlow q) := by rw [hl]; exact List.mem_cons_self
+      exact (List.mem_filter.mp this).2
+    have : candidate o x = false := by
+      rw [← candidate_congr_sameFlow o (sameFlow_trans (by rw [sameFlow_symm]; exact h) hx)]; exact hc
+    simp [alone, this]
+
+theorem groupByFlow_find (M : TlsMachine κ σ ο) (o : Opts) (q : Pkt) (pkts : List Pkt) :
+    (groupByFlow M o pkts).find? (·.matches q) = alone M o (pkts.filter (sameFlow q)) := by
+  generalize hn : pkts.length = n
+  induction n using Nat.strongRecOn generalizing pkts with
+  | _ n ih =>
+    cases pkts with
+    | nil => simp [groupByFlow, alone]
+    | cons p ps =>
+      rw [groupByFlow]
+      by_cases hc : candidate o p = true
+      · simp only [hc, if_true, List.find?_cons, feedAll_matches, tlsNew_matches, List.filter_cons]
+        cases hpq : sameFlow p q with
+        | true =>
+          have hqp : sameFlow q p = true := by rw [sameFlow_symm]; exact hpq
+          simp only [hqp, if_true, alone, hc]
+          rw [filter_sameFlow_congr hpq]
+        | false =>
+          have hqp : sameFlow q p = false := by rw [sameFlow_symm]; exact hpq
+          simp only [hqp, Bool.false_eq_true, if_false]
+          rw [ih _ (by have := others_length_le p ps; simp at hn; omega) (others p ps) rfl]
+          rw [others_filter_sameFlow hpq]
+      · have hc' : candidate o p = false := by simpa using hc
+        simp only [hc', Bool.false_eq_true, if_false, List.filter_cons]
+        rw [ih _ (by simp at hn; omega) ps rfl]
+        cases hqp : sameFlow q p with
+        | true =>
+          simp only [if_true, alone, hc', Bool.false_eq_true, if_false]
+          exact alone_none_of_not_candidate M o hc' hqp ps
+        | false => simp
+end Tls3
+
+section RouterInv
+variable {S I : Type}
+
+theorem Router.mem_handle (R : Router S I) {ss : List S} {x : I} {t : S} (h : t ∈ R.handle ss x) :
+    t ∈ ss ∨ (∃ s ∈ ss, t = R.feed s x) ∨ R.create x = some t := by
+  induction ss with
+  | nil =>
+    simp only [Router.handle] at h
+    cases hc : R.create x with
+    | none => simp [hc] at h
+    | some s => simp [hc] at h; simp [h]
+  | cons s rest ih =>
+    simp only [Router.handle] at h
+    split at h
+    · rcases List.mem_cons.mp h with rfl | h
+      · exact .inr (.inl ⟨s, List.mem_cons_self, rfl⟩)
+      · exact .inl (List.mem_cons_of_mem _ h)
+    · rcases List.mem_cons.mp h with rfl | h
+      · exact .inl List.mem_cons_self
+      · rcases ih h with h | ⟨u, hu, rfl⟩ | h
+        · exact .inl (List.mem_cons_of_mem _ h)
+        · exact .inr (.inl ⟨u, List.mem_cons_of_mem _ hu, rfl⟩)
+        · exact .inr (.inr h)
+
+/-- an invariant of the sessions kept by feeding and established by creation holds throughout a run -/
+theorem Router.run_inv (R : Router S I) (P : S → Prop) (A : List I)
+    (hfeed : ∀ s, ∀ x ∈ A, P s → P (R.feed s x)) (hcreate : ∀ x ∈ A, ∀ t, R.create x = some t → P t) :
+    ∀ (xs : List I), (∀ x ∈ xs, x ∈ A) → ∀ ss : List S, (∀ s ∈ ss, P s) → ∀ s ∈ R.run ss xs, P s := by
+  intro xs
+  induction xs with
+  | nil => intro _ ss h; exact h
+  | cons x xs ih =>
+    intro hsub ss h
+    simp only [Router.run, List.foldl_cons]
+    apply ih (fun y hy => hsub y (List.mem_cons_of_mem _ hy))
+    intro t ht
+    have hx := hsub x List.mem_cons_self
+    rcases R.mem_handle ht with h' | ⟨u, hu, rfl⟩ | h'
+    · exact h t h'
+    · exact hfeed u x hx (h u hu)
+    · exact hcreate x hx t h'
+end RouterInv
+
+section TlsRouter
+variable {κ σ ο : Type}
+
+def tlsRouter (M : TlsMachine κ σ ο) (o : Opts) : Router (TlsSess σ) Pkt where
+  takes := Sess.matches
+  feed := feedS M
+  create := fun p => if candidate o p then some (tlsNew M o p) else none
+
+theorem tlsHandle_eq_router (M : TlsMachine κ σ ο) (o : Opts) (ss : List (TlsSess σ)) (p : Pkt) :
+    tlsHandle M o ss p = (tlsRouter M o).handle ss p := by
+  induction ss with
+  | nil => simp only [tlsHandle, Router.handle, tlsRouter]; split <;> rfl
+  | cons s rest ih => simp only [tlsHandle, Router.handle, ih]; rfl
+
+theorem tlsRun_eq_router (M : TlsMachine κ σ ο) (o : Opts) (ss : List (TlsSess σ)) (pkts : List Pkt) :
+    tlsRun M o ss pkts = (tlsRouter M o).run ss pkts := by
+  have : tlsHandle M o = (tlsRouter M o).handle := by funext ss p; exact tlsHandle_eq_router M o ss p
+  simp only [tlsRun, Router.run, this]
+
+/-- every session of a run matches one of the packets of the capture -/
+theorem tlsRun_session_flow (M : TlsMachine κ σ ο) (o : Opts) (A : List Pkt) (n : Nat) :
+    ∀ s ∈ tlsRun M o [] (A.take n), ∃ a ∈ A, s.matches a = true := by
+  rw [tlsRun_eq_router]
+  apply (tlsRouter M o).run_inv (fun s => ∃ a ∈ A, s.matches a = true) A
+  · intro s x _ ⟨a, ha, hm⟩; exact ⟨a, ha, hm⟩
+  · intro x hx t ht
+    simp only [tlsRouter] at ht
+    split at ht
+    · cases ht; exact ⟨x, hx, by rw [tlsNew_matches]; exact sameFlow_refl x⟩
+    · cases ht
+  · intro x hx; exact List.mem_of_mem_take hx
+  · intro s hs; cases hs
+
+theorem tls_iso_of_disjoint (M : TlsMachine κ σ ο) (o : Opts) (A B : List Pkt)
+    (h : ∀ a ∈ A, ∀ b ∈ B, sameFlow a b = false) : (tlsRouter M o).Iso [] A B := by
+  intro n s hs x hx
+  rw [← tlsRun_eq_router] at hs
+  obtain ⟨a, ha, hm⟩ := tlsRun_session_flow M o A n s hs
+  cases hsx : (tlsRouter M o).takes s x with
+  | false => rfl
+  | true =>
+    have := sameFlow_of_matches s hm hsx
+    rw [h a ha x hx] at this; cases this
+
+theorem tls_run_merge (M : TlsMachine κ σ ο) (o : Opts) {A B C : List Pkt} (hm : Merge A B C)
+    (h : ∀ a ∈ A, ∀ b ∈ B, sameFlow a b = false) :
+    Merge (tlsRun M o [] A) (tlsRun M o [] B) (tlsRun M o [] C) := by
+  simp only [tlsRun_eq_router]
+  refine (tlsRouter M o).run_merge hm .nil (tls_iso_of_disjoint M o A B h) (tls_iso_of_disjoint M o B A ?_)
+  intro b hb a ha
+  rw [sameFlow_symm]; exact h a ha b hb
+end TlsRouter
+
+section QuicRouter
+variable {κ τ ο : Type}
+
+def quicRouter (M : QuicMachine κ τ ο) (o : Opts) : Router (QuicSess τ) (QIn κ) where
+  takes := fun s x => x.h != .tooShort && (quicTake M x.h x.p s).isSome
+  feed := fun s x => match quicTake M x.h x.p s with
+    | some c => { s with st := M.feed s.st x.kl x.p c x.h.ver }
+    | none => s
+  create := fun x => if x.h = .tooShort ∨ x.h = .short then none else some (quicNew M o x.kl x.h x.p)
+
+theorem quicHandleH_eq_router (M : QuicMachine κ τ ο) (o : Opts) (ss : List (QuicSess τ)) (x : QIn κ) :
+    quicHandleH M o x.kl x.h ss x.p = (quicRouter M o).handle ss x := by
+  unfold quicHandleH
+  by_cases ht : x.h = .tooShort
+  · simp only [ht, if_true]
+    induction ss with
+    | nil => simp [Router.handle, quicRouter, ht]
+    | cons s rest ih =>
+      simp only [Router.handle]
+      have : (quicRouter M o).takes s x = false := by simp [quicRouter, ht]
+      simp only [this, Bool.false_eq_true, if_false, ← ih]
+  · simp only [ht, if_false]
+    induction ss with
+    | nil =>
+      simp only [quicLoop, Router.handle, quicRouter, ht, false_or]
+      split <;> rfl
+    | cons s rest ih =>
+      simp only [quicLoop, Router.handle]
+      have hne : (x.h != Hdr.tooShort) = true := by simpa using ht
+      cases hq : quicTake M x.h x.p s with
+      | some c =>
+        have : (quicRouter M o).takes s x = true := by simp [quicRouter, hne, hq]
+        simp only [this, if_true]
+        simp only [quicRouter, hq]
+      | none =>
+        have : (quicRouter M o).takes s x = false := by simp [quicRouter, hq]
+        simp only [this, Bool.false_eq_true, if_false, ih]
+
+theorem quicRun_eq_router (M : QuicMachine κ τ ο) (o : Opts) (ss : List (QuicSess τ)) (xs : List (QIn κ)) :
+    quicRun M o ss xs = (quicRouter M o).run ss xs := by
+  have : (fun ss (x : QIn κ) => quicHandleH M o x.kl x.h ss x.p) = (quicRouter M o).handle := by
+    funext ss x; exact quicHandleH_eq_router M o ss x
+  simp only [quicRun, Router.run, this]
+end QuicRouter
+
+section Order
+
+theorem lexLe_total (a b : Bytes) : (lexLe a b || lexLe b a) = true := by
+  induction a generalizing b with
+  | nil => simp [lexLe]
+  | cons x xs ih =>
+    cases b with
+    | nil => simp [lexLe]
+    | cons y ys =>
+      have := ih ys
+      simp only [lexLe, Bool.or_eq_true, Bool.and_eq_true, decide_eq_true_eq, beq_iff_eq] at *
+      by_cases h1 : x.toNat < y.toNat
+      · exact .inl (.inl h1)
+      · by_cases h2 : y.toNat < x.toNat
+        · exact .inr (.inl h2)
+        · have : x.toNat = y.toNat := by omega
+          rcases ih ys with h | h
+          · exact .inl (.inr ⟨this, h⟩)
+          · exact .inr (.inr ⟨this.symm, h⟩)
+
+theorem lexLe_antisymm {a b : Bytes} (h1 : lexLe a b = true) (h2 : lexLe b a = true) : a = b := by
+  induction a generalizing b with
+  | nil => cases b with
+    | nil => rfl
+    | cons y ys => simp [lexLe] at h2
+  | cons x xs ih =>
+    cases b with
+    | nil => simp [lexLe] at h1
+    | cons y ys =>
+      simp only [lexLe, Bool.or_eq_true, Bool.and_eq_true, decide_eq_true_eq, beq_iff_eq] at h1 h2
+      rcases h1 with h1 | ⟨e1, h1⟩
+      · rcases h2 with h2 | ⟨e2, _⟩ <;> omega
+      · rcases h2 with h2 | ⟨_, h2⟩
+        · omega
+        · rw [ih h1 h2, UInt8.toNat_inj.mp e1]
+
+theorem lexLe_trans {a b c : Bytes} (h1 : lexLe a b = true) (h2 : lexLe b c = true) : lexLe a c = true := by
+  induction a generalizing b c with
+  | nil => simp [lexLe]
+  | cons x xs ih =>
+    cases b with
+    | nil => simp [lexLe] at h1
+    | cons y ys =>
+      cases c with
+      | nil => simp [lexLe] at h2
+      | cons z zs =>
+        simp only [lexLe, Bool.or_eq_true, Bool.and_eq_true, decide_eq_true_eq, beq_iff_eq] at *
+        rcases h1 with h1 | ⟨e1, h1⟩
+        · rcases h2 with h2 | ⟨e2, _⟩
+          · exact .inl (by omega)
+          · exact .inl (by omega)
+        · rcases h2 with h2 | ⟨e2, h2⟩
+          · exact .inl (by omega)
+          · exact .inr ⟨by omega, ih h1 h2⟩
+
+theorem cidLe_total (a b : Bytes) : (cidLe a b || cidLe b a) = true := by
+  have := lexLe_total a b
+  simp only [cidLe, Bool.or_eq_true, Bool.and_eq_true, decide_eq_true_eq, beq_iff_eq] at *
+  by_cases h1 : b.length < a.length
+  · exact .inl (.inl h1)
+  · by_cases h2 : a.length < b.length
+    · exact .inr (.inl h2)
+    · have e : a.length = b.length := by omega
+      rcases this with h | h
+      · exact .inl (.inr ⟨e, h⟩)
+      · exact .inr (.inr ⟨e.symm, h⟩)
+
+theorem cidLe_antisymm {a b : Bytes} (h1 : cidLe a b = true) (h2 : cidLe b a = true) : a = b := by
+  simp only [cidLe, Bool.or_eq_true, Bool.and_eq_true, decide_eq_true_eq, beq_iff_eq] at h1 h2
+  rcases h1 with h1 | ⟨_, h1⟩
+  · rcases h2 with h2 | ⟨e2, _⟩ <;> omega
+  · rcases h2 with h2 | ⟨_, h2⟩
+    · omega
+    · exact lexLe_antisymm h1 h2
+
+theorem cidLe_trans {a b c : Bytes} (h1 : cidLe a b = true) (h2 : cidLe b c = true) : cidLe a c = true := by
+  simp only [cidLe, Bool.or_eq_true, Bool.and_eq_true, decide_eq_true_eq, beq_iff_eq] at *
+  rcases h1 with h1 | ⟨e1, h1⟩
+  · rcases h2 with h2 | ⟨e2, _⟩
+    · exact .inl (by omega)
+    · exact .inl (by omega)
+  · rcases h2 with h2 | ⟨e2, h2⟩
+    · exact .inl (by omega)
+    · exact .inr ⟨by omega, lexLe_trans h1 h2⟩
+
+theorem insertCid_perm (c : Bytes) (l : List Bytes) : (insertCid c l).Perm (c :: l) := by
+  induction l with
+  | nil => exact .refl _
+  | cons d ds ih =>
+    simp only [insertCid]
+    split
+    · exact .refl _
+    · exact (List.Perm.cons d ih).trans (List.Perm.swap c d ds)
+
+theorem sortCids_perm_self (l : List Bytes) : (sortCids l).Perm l := by
+  induction l with
+  | nil => exact .refl _
+  | cons c cs ih =>
+    simp only [sortCids, List.foldr_cons] at *
+    exact (insertCid_perm c _).trans (List.Perm.cons c ih)
+
+theorem insertCid_sorted (c : Bytes) {l : List Bytes} (h : l.Pairwise fun a b => cidLe a b = true) :
+    (insertCid c l).Pairwise fun a b => cidLe a b = true := by
+  induction l with
+  | nil => simp [insertCid]
+  | cons d ds ih =>
+    simp only [insertCid]
+    have hd := List.pairwise_cons.mp h
+    split
+    · rename_i hcd
+      refine List.pairwise_cons.mpr ⟨?_, h⟩
+      intro x hx
+      rcases List.mem_cons.mp hx with rfl | hx
+      · exact hcd
+      · exact cidLe_trans hcd (hd.1 x hx)
+    · rename_i hcd
+      refine List.pairwise_cons.mpr ⟨?_, ih hd.2⟩
+      intro x hx
+      rcases List.mem_cons.mp ((insertCid_perm c ds).mem_iff.mp hx) with rfl | hx
+      · have := cidLe_total x d
+        simp only [Bool.or_eq_true] at this
+        rcases this with h' | h'
+        · exact absurd h' hcd
+        · exact h'
+      · exact hd.1 x hx
+
+theorem sortCids_sorted (l : List Bytes) : (sortCids l).Pairwise fun a b => cidLe a b = true := by
+  induction l with
+  | nil => simp [sortCids]
+  | cons c cs ih => simp only [sortCids, List.foldr_cons] at *; exact insertCid_sorted c ih
+
+theorem sortCids_perm {l l' : List Bytes} (h : l.Perm l') : sortCids l = sortCids l' := by
+  apply List.Perm.eq_of_pairwise (le := fun a b => cidLe a b = true)
+  · intro a b _ _ h1 h2; exact cidLe_antisymm h1 h2
+  · exact sortCids_sorted l
+  · exact sortCids_sorted l'
+  · exact (sortCids_perm_self l).trans (h.trans (sortCids_perm_self l').symm)
+
+theorem mem_sortCids {l : List Bytes} {c : Bytes} : c ∈ sortCids l ↔ c ∈ l :=
+  (sortCids_perm_self l).mem_iff
+
+theorem cidPrefixOf_iff (payload c : Bytes) : cidPrefixOf payload c = true ↔ c ≠ [] ∧ c <+: payload.drop 1 := by
+  simp only [cidPrefixOf, Bytes.slice, Bool.and_eq_true, decide_eq_true_eq, beq_iff_eq, List.prefix_iff_eq_take]
+  have : 1 + c.length - 1 = c.length := by omega
+  rw [this, List.length_pos_iff]
+
+theorem shortPick_eq_none_iff (cids : List Bytes) (payload : Bytes) :
+    shortPick cids payload = none ↔ ∀ c ∈ cids, c ≠ [] → ¬ c <+: payload.drop 1 := by
+  simp only [shortPick, List.find?_eq_none, mem_sortCids, cidPrefixOf_iff]
+  constructor
+  · intro h c hc hne hp; exact h c hc ⟨hne, hp⟩
+  · intro h c hc ⟨hne, hp⟩; exact h c hc hne hp
+
+/-- what a short-header packet is matched with is a non-empty known CID that its bytes 1.. start with -/
+theorem shortPick_some {cids : List Bytes} {payload c : Bytes} (h : shortPick cids payload = some c) :
+    c ∈ cids ∧ c ≠ [] ∧ c <+: payload.drop 1 := by
+  have h1 := List.find?_some h
+  have h2 := List.mem_of_find?_eq_some h
+  rw [cidPrefixOf_iff] at h1
+  exact ⟨mem_sortCids.mp h2, h1⟩
+end Order
+
+section QuicApart
+variable {κ τ ο : Type}
+
+theorem quicTake_eq_none_iff (M : QuicMachine κ τ ο) (s : QuicSess τ) (x : QIn κ) (hx : x.h ≠ .tooShort) :
+    quicTake M x.h x.p s = none ↔ Apart M s x := by
+  unfold quicTake
+  cases hh : x.h with
+  | tooShort => exact absurd hh hx
+  | long d v =>
+    simp only [cidMatch]
+    constructor
+    · intro h
+      split at h
+      · cases h
+      · rename_i hc
+        split at hc
+        · cases hc
+        · rename_i hn
+          split at h
+          · cases h
+          · rename_i hm
+            refine ⟨by simpa using hm, ?_, ?_⟩
+            · intro d' v' e hne
+              rw [hh] at e
+              have hd : d' = d := by injection e with e1 _; exact e1.symm
+              rw [hd] at hne ⊢
+              have : 0 < d.length := List.length_pos_iff.mpr hne
+              constructor
+              · intro hc'; exact hn ⟨this, .inl hc'⟩
+              · intro hc'; exact hn ⟨this, .inr hc'⟩
+            · intro e; rw [hh] at e; cases e
+    · intro ⟨ht, hl, _⟩
+      have hn : ¬ (0 < d.length ∧ (d ∈ M.clientCids s.st ∨ d ∈ M.serverCids s.st)) := by
+        intro ⟨h1, h2⟩
+        have := hl d v hh (List.length_pos_iff.mp h1)
+        rcases h2 with h2 | h2
+        · exact this.1 h2
+        · exact this.2 h2
+      simp [hn, ht]
+  | short =>
+    simp only [cidMatch]
+    constructor
+    · intro h
+      split at h
+      · cases h
+      · rename_i hc
+        split at h
+        · cases h
+        · rename_i hm
+          refine ⟨by simpa using hm, ?_, ?_⟩
+          · intro d v e; rw [hh] at e; cases e
+          · intro _ c hc' hne
+            exact (shortPick_eq_none_iff _ _).mp hc c (List.mem_append.mpr hc') hne
+    · intro ⟨ht, _, hs⟩
+      have : shortPick (M.clientCids s.st ++ M.serverCids s.st) x.p.payload = none := by
+        rw [shortPick_eq_none_iff]
+        intro c hc hne
+        exact hs hh c (List.mem_append.mp hc) hne
+      simp [this, ht]
+
+theorem quic_iso_of_separated (M : QuicMachine κ τ ο) (o : Opts) {A B : List (QIn κ)} (h : QuicSeparated M o A B) :
+    (quicRouter M o).Iso [] A B := by
+  intro n s hs x hx
+  rw [← quicRun_eq_router] at hs
+  by_cases ht : x.h = .tooShort
+  · simp [quicRouter, ht]
+  · have := (quicTake_eq_none_iff M s x ht).mpr (h n s hs x hx ht)
+    simp [quicRouter, this]
+
+theorem quic_run_merge (M : QuicMachine κ τ ο) (o : Opts) {A B C : List (QIn κ)} (hm : Merge A B C)
+    (hAB : QuicSeparated M o A B) (hBA : QuicSeparated M o B A) :
+    Merge (quicRun M o [] A) (quicRun M o [] B) (quicRun M o [] C) := by
+  simp only [quicRun_eq_router]
+  exact (quicRouter M o).run_merge hm .nil (quic_iso_of_separated M o hAB) (quic_iso_of_separated M o hBA)
+end QuicApart
 end TLX.Lemmas.MainLoop
